@@ -395,6 +395,15 @@ def p_to_rodrigues_frank(ctx, c, outs):
         back = I[c["cls"]].from_rodrigues(f[:, :3], f[:, 3])
         m2 = mis(back.data.reshape(-1, 4), ref)
         r.elems("roundtrip", ~(m2 <= t), lambda i: f"from_rodrigues(axes, tan) of to_rodrigues(frank=True) = {back.data.reshape(-1, 4)[i].tolist()} differs from q = {ref[i].tolist()} by {m2[i]:.3g} rad")
+        # the same with axes and magnitudes in the object's own n-d shape, the magnitudes in every memory layout
+        if len(shp) >= 2 and rf.shape == tuple(shp) + (4,):
+            for k in range(len(common.LAYOUTS)):
+                backn = I[c["cls"]].from_rodrigues(common.relayout(rf[..., :3], k + 1), common.relayout(rf[..., 3], k))
+                if tuple(backn.shape) != tuple(shp):
+                    r.whole("shape", f"from_rodrigues(axes, tan) shape {tuple(backn.shape)} for input shape {shp}")
+                    break
+                m3 = mis(backn.data.reshape(-1, 4), ref)
+                r.elems("roundtrip", ~(m3 <= t), lambda i: f"from_rodrigues(axes, tan) with {len(shp)}-d input (magnitudes in layout '{common.LAYOUTS[k]}') = {backn.data.reshape(-1, 4)[i].tolist()} differs from q = {ref[i].tolist()} by {m3[i]:.3g} rad")
     finally:
         w.__exit__(None, None, None)
     return None
